@@ -121,4 +121,25 @@ Section Extrap.
                 let rest := run_calls_rewriting g step (option_map g store) t in
                 (r :: fst rest, snd rest)
     end.
+
+  (** ** how the spacings are TYPED
+      The caller may write a spacing as an integer (python int - the documented type of extrap_x_l is list[int] -, numpy
+      integer scalar, element of an integer ndarray, integer [.extrap_x] attribute) or as a float, and may mix the two.
+      The closed formulas of Numerics.py combine the scalars with [*], [-] and TRUE division, so an integer enters as
+      the number it denotes: the typed call is the untyped one on [map xnum]. *)
+  Inductive xval : Type := XInt (z : Z) | XNum (x : F).
+  Definition xnum (v : xval) : F := match v with XInt z => nofZ z | XNum x => x end.
+  Definition extrap_entry_typed (xs : list xval) (ys : list F) : option F := extrap_entry (map xnum xs) ys.
+  Definition extrap_full_typed (logm : bool) (fail_mag : F) (xs : list xval) (ys : list F) : option F :=
+    extrap_full logm fail_mag (map xnum xs) ys.
+
+  (** what an implementation that keeps the Lagrange weights of an all-integer list in an INTEGER container would be
+      (numpy.empty_like of an integer array, floor/integer division of the scalars, ...): every weight
+      prod x_j / prod (x_j - x_i) cut to an integer by [cut] ([Z.quot]: toward zero, a C cast; [Z.div]: floor).
+      Only used to state that such an implementation is NOT exact (Props/C07.v). *)
+  Definition zweight (cut : Z -> Z -> Z) (zs : list Z) (z : Z) : Z :=
+    let others := filter (fun z' => negb (Z.eqb z' z)) zs in
+    cut (fold_right Z.mul 1%Z others) (fold_right Z.mul 1%Z (map (fun z' => (z' - z)%Z) others)).
+  Definition lagrange0_intweights (cut : Z -> Z -> Z) (zs : list Z) (ys : list F) : F :=
+    lagrange0_w (map (fun z => nofZ (zweight cut zs z)) zs) ys.
 End Extrap.
